@@ -3,12 +3,13 @@
    Model: Term/Const.v (ast.Constant as Go stores it, Equals, Hash), Term/Print.v
    (String), Term/MkMap.v (ast.Map / ast.Struct), Term/Atom.v.
    [wf] = built by the public constructors; [valid] = lexer-valid names, valid
-   UTF-8 strings, finite floats. *)
+   UTF-8 strings, bytes in 0..255, finite floats. *)
 From Coq Require Import List ZArith Bool Permutation.
 From Coq Require Import Strings.String.
 Local Open Scope string_scope.
 From MV Require Import Term.Hash Term.Const Term.ConstProofs Term.Print Term.PrintProofs
-  Term.MkMap Term.MkMapProofs Term.Expr Term.Atom Term.AtomProofs.
+  Term.EscProofs Term.PrintInjProofs
+  Term.MkMap Term.MkMapProofs Term.Expr Term.Atom Term.AtomProofs Term.AtomPrintProofs.
 Import ListNotations.
 Open Scope Z_scope.
 
@@ -53,27 +54,77 @@ Qed.
 Print Assumptions equals_print.
 
 (* ---- printing is injective ------------------------------------------------
-   Full statement (print_inj), proved only for the classes below:
-     forall fmt_float fmt_time fmt_dur,
-       (forall b b', float_special b = false -> float_special b' = false ->
-          format_float64 fmt_float b = format_float64 fmt_float b' -> b = b') ->
-       (forall n n', fmt_time n = fmt_time n' -> n = n') -> (forall n n', fmt_dur n = fmt_dur n' -> n = n') ->
-       (forall n, ~ In 34 (fmt_time n) /\ ~ In 92 (fmt_time n) /\ ~ In 34 (fmt_dur n) /\ ~ In 92 (fmt_dur n)) ->
-       forall c d, wf c = true -> wf d = true -> valid c = true -> valid d = true ->
-       print fmt_float fmt_time fmt_dur c = print fmt_float fmt_time fmt_dur d -> c = d.
-   Proved part: number and float constants (the classes finding F6 confused).
-   The other classes and nesting are covered by the differential check only
-   (checks/c08.py, law "same print => equal" on Go's answers). *)
-Theorem print_inj_partial : forall (fmt_float fmt_time fmt_dur : Z -> list Z),
+   Laws of the library formatters assumed (sampled on the real library by the
+   harness, runner c08_lib): the fixed float formatter is injective on finite bit
+   patterns and writes finite floats with digits, '-' and '.' only; the time and
+   duration formatters are injective and never write a quote.
+   [valid]: names are lexer-valid, strings are valid UTF-8 (Escape succeeds), bytes
+   are in 0..255, floats are finite. *)
+
+(* the printed form is uniquely decodable: a printed constant followed by nothing or
+   by a character that cannot occur in a name or number determines the constant and
+   the rest of the text *)
+Theorem print_uniquely_decodable : forall (fmt_float fmt_time fmt_dur : Z -> list Z),
+  (forall b b', float_special b = false -> float_special b' = false ->
+     format_float64 fmt_float b = format_float64 fmt_float b' -> b = b') ->
+  (forall b, float_special b = false ->
+     forallb (fun c => is_digit c || (c =? 45) || (c =? 46)) (fmt_float b) = true) ->
+  (forall n n', fmt_time n = fmt_time n' -> n = n') -> (forall n, ~ In 34 (fmt_time n)) ->
+  (forall n n', fmt_dur n = fmt_dur n' -> n = n') -> (forall n, ~ In 34 (fmt_dur n)) ->
+  forall c d r1 r2, wf c = true -> valid c = true -> wf d = true -> valid d = true ->
+  match r1 with [] => True | x :: _ => constant_char x || (x =? 47) = false end ->
+  match r2 with [] => True | x :: _ => constant_char x || (x =? 47) = false end ->
+  (print fmt_float fmt_time fmt_dur c ++ r1 = print fmt_float fmt_time fmt_dur d ++ r2)%list -> c = d /\ r1 = r2.
+Proof. exact print_decodable. Qed.
+Print Assumptions print_uniquely_decodable.
+
+(* all kinds of constants, any nesting depth *)
+Theorem print_inj : forall (fmt_float fmt_time fmt_dur : Z -> list Z),
+  (forall b b', float_special b = false -> float_special b' = false ->
+     format_float64 fmt_float b = format_float64 fmt_float b' -> b = b') ->
+  (forall b, float_special b = false ->
+     forallb (fun c => is_digit c || (c =? 45) || (c =? 46)) (fmt_float b) = true) ->
+  (forall n n', fmt_time n = fmt_time n' -> n = n') -> (forall n, ~ In 34 (fmt_time n)) ->
+  (forall n n', fmt_dur n = fmt_dur n' -> n = n') -> (forall n, ~ In 34 (fmt_dur n)) ->
+  forall c d, wf c = true -> wf d = true -> valid c = true -> valid d = true ->
+  print fmt_float fmt_time fmt_dur c = print fmt_float fmt_time fmt_dur d -> c = d.
+Proof. exact print_inj_lemma. Qed.
+Print Assumptions print_inj.
+
+(* the laws are satisfiable together (formatters made from the decimal printer), and the
+   domain contains every kind of constant, nested *)
+Example print_inj_nonvacuous :
+  (exists fmt_float fmt_time fmt_dur : Z -> list Z,
+    (forall b b', float_special b = false -> float_special b' = false ->
+       format_float64 fmt_float b = format_float64 fmt_float b' -> b = b') /\
+    (forall b, float_special b = false ->
+       forallb (fun c => is_digit c || (c =? 45) || (c =? 46)) (fmt_float b) = true) /\
+    (forall n n', fmt_time n = fmt_time n' -> n = n') /\ (forall n, ~ In 34 (fmt_time n)) /\
+    (forall n n', fmt_dur n = fmt_dur n' -> n = n') /\ (forall n, ~ In 34 (fmt_dur n))) /\
+  let c := build (EMap [(EName (bs "/a/b-1"), EList [ENum (-1); EFloat 4607182418800017408; EList []]);
+                        (EStr [104; 195; 169; 34; 13; 240; 159; 152; 128], EPair (ETime 0) (EDur 5));
+                        (EBytes [0; 34; 200; 92], EStruct [(EName (bs "/k"), EMap [])])]) in
+  let d := build (EList [EName (bs "/a/b-1")]) in
+  wf c = true /\ valid c = true /\ wf d = true /\ valid d = true /\ c <> d.
+Proof.
+  split.
+  - exists toy_float, print_number, print_number.
+    destruct toy_laws as (A & B & C & D). repeat split; assumption.
+  - vm_compute. repeat split; try reflexivity. intro H; discriminate H.
+Qed.
+
+(* numbers and floats alone need only the injectivity law of the float formatter
+   (the classes finding F6 confused) *)
+Theorem print_inj_numbers_floats : forall (fmt_float fmt_time fmt_dur : Z -> list Z),
   (forall b b', float_special b = false -> float_special b' = false ->
      format_float64 fmt_float b = format_float64 fmt_float b' -> b = b') ->
   forall c d, wf c = true -> wf d = true -> valid c = true -> valid d = true ->
   num_or_float c = true -> num_or_float d = true ->
   print fmt_float fmt_time fmt_dur c = print fmt_float fmt_time fmt_dur d -> c = d.
 Proof. exact print_inj_numeric. Qed.
-Print Assumptions print_inj_partial.
+Print Assumptions print_inj_numbers_floats.
 
-Example print_inj_partial_nonvacuous :
+Example print_inj_numbers_floats_nonvacuous :
   let c := mk_number 1 in let d := mk_float 4607182418800017408 in   (* 1 and 1.0 *)
   wf c = true /\ wf d = true /\ valid c = true /\ valid d = true /\ num_or_float c = true /\ num_or_float d = true.
 Proof. vm_compute. repeat split. Qed.
@@ -116,7 +167,29 @@ Proof.
   intros ff ft fd sym args sym' args' W W' H. apply (atom_equals_iff_lemma _ _ _ _ W W') in H. rewrite H. split; reflexivity.
 Qed.
 Print Assumptions atom_equals_hash_print.
-(* atom_print_inj: not proved (depends on print_inj); checked differentially. *)
+
+(* atoms with lexer-valid predicate names whose arguments are well-formed valid constants
+   or lexer-valid variables ([bterm_ok]) are equal when they print identically *)
+Theorem atom_print_inj : forall (fmt_float fmt_time fmt_dur : Z -> list Z),
+  (forall b b', float_special b = false -> float_special b' = false ->
+     format_float64 fmt_float b = format_float64 fmt_float b' -> b = b') ->
+  (forall b, float_special b = false ->
+     forallb (fun c => is_digit c || (c =? 45) || (c =? 46)) (fmt_float b) = true) ->
+  (forall n n', fmt_time n = fmt_time n' -> n = n') -> (forall n, ~ In 34 (fmt_time n)) ->
+  (forall n n', fmt_dur n = fmt_dur n' -> n = n') -> (forall n, ~ In 34 (fmt_dur n)) ->
+  forall sym args sym' args',
+  pred_valid sym = true -> pred_valid sym' = true ->
+  forallb bterm_ok args = true -> forallb bterm_ok args' = true ->
+  print_atom fmt_float fmt_time fmt_dur (new_atom sym args) = print_atom fmt_float fmt_time fmt_dur (new_atom sym' args') ->
+  new_atom sym args = new_atom sym' args'.
+Proof. exact atom_print_inj_lemma. Qed.
+Print Assumptions atom_print_inj.
+
+Example atom_print_inj_nonvacuous :
+  let args := [TConst (build (EList [ENum (-3); EStr (bs "x,y")])); TVar (bs "X1"); TVar (bs "_"); TConst (mk_name (bs "/a"))] in
+  pred_valid (bs "foo.bar:baz") = true /\ forallb bterm_ok args = true /\
+  forallb bterm_ok [] = true /\ new_atom (bs "p") args <> new_atom (bs "p") [].
+Proof. vm_compute. repeat split; try reflexivity. intro H; discriminate H. Qed.
 
 Example atom_equals_nonvacuous :
   let a := new_atom (bs "p") [TConst (mk_number 0); TVar (bs "X")] in
